@@ -471,6 +471,45 @@ def run(repo: Repo, ctx) -> None:
     ctx.ob('C18.R3', 'edgeql.quote.quote_ident:uses-decision', ok,
            'quote_ident does not quote when needs_quoting says so', qi.loc,
            sample='force or needs_quoting -> _quote_ident')
+    # every keyword class the grammar does not take for a plain Identifier
+    # counts as reserved in the quoting decision
+    gx = repo.modules.get('edb.edgeql.parser.grammar.expressions')
+    kwm = repo.modules.get('edb.edgeql.parser.grammar.keywords')
+    if gx is not None and kwm is not None:
+        kwclass_type = {}
+        for cn, ci in gx.classes.items():
+            for k in ci.node.keywords:
+                if k.arg == 'type' and norm(k.value).startswith('keywords.'):
+                    kwclass_type[cn] = norm(k.value).split('.')[-1]
+        ident = gx.classes.get('Identifier')
+        bare = set()
+        if ident is not None:
+            for mname in ident.methods:
+                if mname.startswith('reduce_') and mname[7:] in kwclass_type:
+                    bare.add(kwclass_type[mname[7:]])
+        populated = set()
+        for c in ast.walk(kwm.tree):
+            if isinstance(c, ast.DictComp) and isinstance(
+                    c.value, ast.Tuple) and len(c.value.elts) == 2:
+                populated.add(norm(c.value.elts[1]))
+        enq = repo.func(f'{QUOTE}.needs_quoting')
+        consulted = {norm(x.slice).split('.')[-1]
+                     for x in ast.walk(enq.node)
+                     if isinstance(x, ast.Subscript)
+                     and norm(x.value).endswith('by_type')}
+        if not populated or not bare or not consulted:
+            raise AnalysisError('C18.R3: keyword classes of the grammar / '
+                                'of needs_quoting not readable')
+        for kt in sorted(populated - bare):
+            ctx.ob('C18.R3', f'edgeql.quote.needs_quoting:keyword-class={kt}',
+                   kt in consulted,
+                   f'the grammar takes a {kt} for a keyword token and its '
+                   f'Identifier rule does not accept that class, but '
+                   f'needs_quoting only consults {sorted(consulted)}: a '
+                   f'name spelt like such a keyword (a type, alias, module '
+                   f'or function called `union`) is printed bare and does '
+                   f'not parse back as a name', enq.loc,
+                   sample=f'{kt} -> back-quoted')
     pnq = repo.func(f'{PGC}.needs_quoting')
     sparam = pnq.params()[0]
     txt = norm(pnq.node)
